@@ -619,5 +619,6 @@ func TestCheck(t *testing.T) {
 	vlib.RunCases(r, "cells", cells(), runCase, true)
 	r.MarkExhaustive("matrix cells mode x read mode x IOExecute x transport (54 cells, one fixed workload each)")
 	vlib.RunCheck(r, vlib.Check[Case]{Name: "patterns", N: r.Pick(600, 12000), Gen: gen, Run: runCase, Confirm: true, RecordCurrent: true})
+	vlib.RunCheck(r, vlib.Check[DialGreet]{Name: "dial-greeting", N: r.Pick(400, 8000), Gen: genDialGreet, Run: runDialGreet, Confirm: true, RecordCurrent: true})
 	r.Finish()
 }
